@@ -338,6 +338,16 @@ pub fn trace_motion(lb: &LineBuf, cmd: &ViCmd, mk: &MotionKind) {
 	if !on { return }
 	let entry = json!({
 		"k": "lb", "cmd": vicmd_str(cmd), "mk": format!("{mk:?}"),
+		"undo_op": cmd.is_undo_op(),
+		"char_insert": cmd.verb.as_ref().is_some_and(|v| v.1.is_char_insert()),
+		"is_edit": cmd.verb.as_ref().is_some_and(|v| v.1.is_edit()),
+		"verb": cmd.verb.as_ref().map(|v| format!("{:?}", v.1)),
+		"verb_count": cmd.verb.as_ref().map(|v| v.0),
+		"reg": json!([cmd.register.name().map(|c| c.to_string()), cmd.register.is_append()]),
+		"flags": cmd.flags.bits(),
+		"fresh": fresh_offsets(&lb.buffer),
+		"excl": clamp_json(&format!("{:?}", lb.cursor))["exclusive"],
+		"sel_mode": lb.select_mode.as_ref().map(|m| format!("{m:?}")),
 		"buf": lb.buffer, "cur": clamp_json(&format!("{:?}", lb.cursor)),
 		"sel_range": lb.select_range.as_ref().map(|r| format!("{r:?}")),
 		"regs": regs_json(),
@@ -352,6 +362,11 @@ pub fn trace_lb_done(lb: &LineBuf) {
 	let entry = json!({
 		"k": "lb_done", "buf": lb.buffer, "cur": clamp_json(&format!("{:?}", lb.cursor)),
 		"regs": regs_json(), "undo_n": lb.undo_stack.len(), "redo_n": lb.redo_stack.len(),
+		"undo": lb.undo_stack.iter().map(edit_json).collect::<Vec<_>>(),
+		"redo": lb.redo_stack.iter().map(edit_json).collect::<Vec<_>>(),
+		"fresh": fresh_offsets(&lb.buffer), "cache": lb.grapheme_indices,
+		"sel_mode": lb.select_mode.as_ref().map(|m| format!("{m:?}")),
+		"sel_range": lb.select_range.as_ref().map(|r| format!("{r:?}")),
 	});
 	TRACE.with_borrow_mut(|t| if let Some(t) = t.as_mut() { t.push(entry) });
 }
